@@ -27,7 +27,11 @@ try:
     for cmd in (["git", "-C", wt, "apply"], ["git", "-C", wt, "apply", "--3way"], ["patch", "-d", wt, "-p1", "-F3", "--no-backup-if-mismatch", "-i"]):
         a = subprocess.run(cmd + [os.path.join(d, "patch.diff")], capture_output=True, text=True)
         if a.returncode == 0:
-            break
+            chk = subprocess.run(["grep", "-rlE", "^(<<<<<<<|>>>>>>>)", wt + "/src"], capture_output=True, text=True)
+            imp = subprocess.run(["/venv/bin/python", "-c", "import icalendar"], env=env, capture_output=True, text=True, cwd="/tmp")
+            if not chk.stdout.strip() and imp.returncode == 0:
+                break
+            a = subprocess.CompletedProcess(cmd, 1, "", "conflict markers or import failure after " + cmd[-1])
         subprocess.run(["git", "-C", wt, "checkout", "--", "."], capture_output=True)
     out["apply"] = a.returncode, (a.stdout + a.stderr)[-300:], cmd[-1]
     if a.returncode == 0:
